@@ -14,9 +14,11 @@ LEVEL_TEXT = ("RPE.rpe_base and RPE.process_data are verified for pose sequences
               "variants on straight-line distances, the ratio variant in percent with zero reference distances skipped and "
               "the end-index list filtered alike, same length and order of values and end indices, unequal lengths refused, "
               "inputs untouched; the pair selectors are cut by their C10 contracts.  Independence of separate rigid motions "
-              "and zero for equal relative motions are lemmas (Groebner).  rpe()/evo_rpe: bounded stand-in.")
+              "and zero for equal relative motions are lemmas (Groebner).  main_rpe.rpe is verified as an event-order contract "
+              "(reference first, processing order, stored trajectories reduced to pose 0 and the pair ends); evo_rpe run(): "
+              "bounded stand-in.")
 LEVEL_NOTE = ("floats as reals; trusted as C01 plus ndarray.nonzero; process_data verified with the selector abstracted by "
-              "the contract of id_pairs_from_delta (C10); rpe() wiring: bounded")
+              "the contract of id_pairs_from_delta (C10); rpe(): wiring proof with recording stand-ins; run(): bounded")
 SIDECARS = ["contracts.lie_algebra", "contracts.lemmas_lie", "contracts.geometry", "contracts.filters", "contracts.metrics",
             "contracts.lemmas_metrics",
             "contracts.overwrite", "contracts.ape_rpe_cli"]
